@@ -966,6 +966,29 @@ package engine
 
 // A change is compiled from its '-' and '+' sides; every '+' elision must be associated with a '-'
 // elision, otherwise the change is rejected (the association error must not be lost).
+// Compile: the whole parsed program is compiled; what comes back is that compilation's program and an
+// error exactly when the compilation recorded one (C09, C19).
+//@ func Compile(fset, p) (prog, err)
+//@   requires p != nil
+//@   requires typing: forall k int {p.Changes[k]} :: 0 <= k && k < len(p.Changes) ==> wfParsedChange(as("*github.com/uber-go/gopatch/internal/parse.Change", p.Changes[k]))
+//@   at call (*engine.compiler).compileProgram assert [C09] the-whole-program-is-compiled: arg1 == p
+//@   ensures [C09] prog == ret("(*engine.compiler).compileProgram", 0)
+
+// A program is compiled change by change, in the order of the patch; the compiled program holds exactly
+// the changes that compiled, in that order (a change that does not compile is reported and left out) (C09).
+//@ func (c *compiler) compileProgram(aprogram) (p)
+//@   requires aprogram != nil
+//@   requires typing: forall k int {aprogram.Changes[k]} :: 0 <= k && k < len(aprogram.Changes) ==> wfParsedChange(as("*github.com/uber-go/gopatch/internal/parse.Change", aprogram.Changes[k]))
+//@   at call (*engine.compiler).compileChange set compiledSeq = ite(result0 != nil, store(compiledSeq, compiledN, result0), compiledSeq)
+//@   at call (*engine.compiler).compileChange set compiledN = compiledN + ite(result0 != nil, 1, 0)
+//@   ensures p != nil
+//@   ensures [C09] the-compiled-changes-in-the-order-of-the-patch: len(p.Changes) == compiledN - old(compiledN) && forall j int {p.Changes[j]} :: 0 <= j && j < len(p.Changes) ==> p.Changes[j] == compiledSeq[old(compiledN) + j] && p.Changes[j] != nil
+//@   loop 0
+//@     invariant p.Changes.arr == 0 || fresh(p.Changes.arr)
+//@     invariant compiledN >= old(compiledN)
+//@     invariant [C09] len(p.Changes) == compiledN - old(compiledN) && forall j int {p.Changes[j]} :: 0 <= j && j < len(p.Changes) ==> p.Changes[j] == compiledSeq[old(compiledN) + j] && p.Changes[j] != nil
+//@     invariant forall j int {compiledSeq[j]} :: j < old(compiledN) ==> compiledSeq[j] == old(compiledSeq)[j]
+
 //@ func (c *compiler) compileChange(achange) (change)
 //@   requires achange != nil && achange.Meta != nil && achange.Patch != nil
 //@   requires typing: forall i int {achange.Meta.Vars[i]} :: 0 <= i && i < len(achange.Meta.Vars) ==> achange.Meta.Vars[i] != nil && achange.Meta.Vars[i].Type != nil && forall j int {achange.Meta.Vars[i].Names[j]} :: 0 <= j && j < len(achange.Meta.Vars[i].Names) ==> achange.Meta.Vars[i].Names[j] != nil
